@@ -1,33 +1,22 @@
 #!/usr/bin/env python3
-"""Regenerates /verif/MANIFEST.json from the table below (kept in one place so that it stays valid)."""
-import json
+"""Regenerates /verif/MANIFEST.json from tools/claims.json (kept in one place so that it stays valid)."""
+import json, subprocess
 
 ALL = [json.loads(l) for l in open('/verif/properties.jsonl')]
-
-# id -> (technique, level text, level note, design ref)
-CLAIMED = {
-    "C27": (
-        "proptest generated range sets vs a spec-transcribed label formatter; written file read by an independent strict reader",
-        "Generated search (20 000 range-set/index cases + 1 500 written files per quick run) against a reference formatter of §12.4.2 and against the /PageLabels tree as read by the harness's own strict PDF reader. Exploration, not proof: holds on the generated classes listed in the evidence.",
-        "Trusted: the 40-line reference formatter (letters A–Z, AA–ZZ…; roman ≤ 3999), refpdf strict reader and PDFDocEncoding/UTF-16 text-string decoder. Roman values > 3999 and labels whose number exceeds u32 are outside the asserted domain.",
-        "§6 C27",
-    ),
-    "C29": (
-        "small-scope exhaustive model-based testing (all histories ≤ 6/7 ops, capacities 0–4) + random long histories + real-thread linearizability checking",
-        "Every history up to the length bound over an 11-operation alphabet and capacities 0–4 is executed on LruCache (and a 1/7 sample on ObjectCache) and compared step by step and by a residency probe with an abstract LRU list: exhaustive within the bound. Longer random histories (6 keys, capacity ≤ 8) and concurrent histories on OS threads checked for linearizability extend it by sampling.",
-        "Trusted: 30-line LRU model, Wing–Gong linearizability search. The schedule quantifier is only sampled (OS scheduler with generated yield points); no controlled-scheduler hook is used, so rare interleavings may be missed.",
-        "§6 C29",
-    ),
-}
+CLAIMED = json.load(open('/verif/tools/claims.json'))
 
 PENDING_REASON = "check not built yet in this session (implementation in progress, see DESIGN.md §10); not claimed until its check is silent on the unchanged tree"
+
+def repo_commits(prefix):
+    out = subprocess.run(['git', '-C', '/repo', 'log', '--format=%h %s'], capture_output=True, text=True).stdout.splitlines()
+    return [l.split()[0] for l in out if l.split(' ', 1)[1].startswith(prefix)]
 
 checks = []
 for p in ALL:
     i = p["id"]
     if i not in CLAIMED:
         continue
-    tech, text, note, ref = CLAIMED[i]
+    c = CLAIMED[i]
     checks.append({
         "property_id": i,
         "quick_cmd": f"./check {i} quick",
@@ -35,9 +24,9 @@ for p in ALL:
         "evidence_file": f"/verif/evidence/{i}.json",
         "replay_cmd_template": f"./check {i} --replay {{path}}",
         "engine": "vp",
-        "level_claimed": {"category": "exploration", "text": text, "design_ref": ref},
-        "level_note": note,
-        "technique": tech,
+        "level_claimed": {"category": c["category"], "text": c["text"], "design_ref": c["ref"]},
+        "level_note": c["note"],
+        "technique": c["technique"],
     })
 
 manifest = {
@@ -47,14 +36,14 @@ manifest = {
         "guard": "--cfg bzsanti_oxidizepdf_verif",
         "enable": "harness/.cargo/config.toml sets rustflags = [\"--cfg\", \"bzsanti_oxidizepdf_verif\"] for the harness build, which compiles /repo/oxidize-pdf-core as a path dependency from the current working tree",
         "baseline_off_cmd": "cd /repo && cargo nextest run --workspace --no-fail-fast --tool-config-file pb:/w/lib/nextest.toml --profile pb --test-threads 8 --offline",
-        "source_commits": [],
+        "source_commits": repo_commits("verif hook"),
         "add_only": True,
     },
     "engines": [
-        {"name": "vp", "path": "/verif/harness", "serves_properties": sorted(CLAIMED), "kind_free_text": "Rust binary: seeded proptest TestRunner shards + exhaustive enumerators + spec-derived reference implementations (refpdf, refcrypto, refcodec, reffont, reftab); writes evidence and replay files"},
+        {"name": "vp", "path": "/verif/harness", "serves_properties": sorted(CLAIMED), "kind_free_text": "Rust binary: seeded proptest TestRunner shards + exhaustive enumerators + process-isolated workers + spec-derived reference implementations (refpdf, refcrypto, refcodec, reffont, reftab); writes evidence and replay files"},
     ],
     "checks": checks,
-    "notes": "Exit codes: 0 held (KNOWN-FINDING lines for listed findings), 1 VIOLATION, 2 could not decide (build failure / harness problem). Known findings: /verif/known_findings.jsonl. Committed replays under /verif/replays/<ID>/ run first in every invocation.",
+    "notes": "Exit codes: 0 held (KNOWN-FINDING lines for listed findings), 1 VIOLATION, 2 could not decide (build failure / harness problem). Known findings: /verif/known_findings.jsonl. Committed replays under /verif/replays/<ID>/ run first in every invocation. Repairs of genuine defects are the 'fix:' commits in /repo: " + ", ".join(repo_commits("fix:")),
     "not_applicable": [{"property_id": p["id"], "reason": PENDING_REASON} for p in ALL if p["id"] not in CLAIMED],
 }
 json.dump(manifest, open('/verif/MANIFEST.json', 'w'), indent=1, ensure_ascii=False)
